@@ -12,6 +12,7 @@ pub mod c07;
 pub mod c08;
 pub mod c09;
 pub mod c10;
+pub mod c13;
 pub mod c14;
 
 pub struct PropInfo {
@@ -71,6 +72,12 @@ const C14_ASSUMPTIONS: &[&str] = &[
     "no claim for texts that were not generated (line lengths up to ~200 KB)",
 ];
 
+const C13_ASSUMPTIONS: &[&str] = &[
+    "the byte-level model of the failure paths: extension must be exactly `hyeong`; the file must be UTF-8; an input line that is not UTF-8 is an error only when the program actually reads it (line-wise reading); non-scalar output values are diagnosed; values >= 2^32 only need a defined end",
+    "the run itself is predicted by the reference interpreter over the reference parse of the file text; runs the model does not finish within its budget are skipped and counted",
+    "wording of diagnostics is not compared; `diagnostic present` = stderr longer than what the program itself wrote there",
+];
+
 pub fn info(id: &str) -> Option<PropInfo> {
     Some(match id {
         "C01" => PropInfo { run: c01::run, replay: c01::replay, gates: c01::gates, rule: c01::RULE, assumptions: EXEC_ASSUMPTIONS },
@@ -78,6 +85,7 @@ pub fn info(id: &str) -> Option<PropInfo> {
         "C10" => PropInfo { run: c10::run, replay: c10::replay, gates: c10::gates, rule: c10::RULE, assumptions: C10_ASSUMPTIONS },
         "C03" => PropInfo { run: c03::run, replay: c03::replay, gates: c03::gates, rule: c03::RULE, assumptions: C03_ASSUMPTIONS },
         "C14" => PropInfo { run: c14::run, replay: c14::replay, gates: c14::gates, rule: c14::RULE, assumptions: C14_ASSUMPTIONS },
+        "C13" => PropInfo { run: c13::run, replay: c13::replay, gates: c13::gates, rule: c13::RULE, assumptions: C13_ASSUMPTIONS },
         "C04" => PropInfo { run: c04::run, replay: c04::replay, gates: c04::gates, rule: c04::RULE, assumptions: PARSE_ASSUMPTIONS },
         "C08" => PropInfo { run: c08::run, replay: c08::replay, gates: c08::gates, rule: c08::RULE, assumptions: PARSE_ASSUMPTIONS },
         "C05" => PropInfo { run: c05::run, replay: c05::replay, gates: c05::gates, rule: c05::RULE, assumptions: NUM_ASSUMPTIONS },
